@@ -9,6 +9,7 @@ import (
 	"encoding/json"
 	"fmt"
 	"os"
+	"reflect"
 )
 
 type rec struct {
@@ -170,4 +171,9 @@ func Run(f func()) (outcome string) {
 	}
 	fmt.Println("VREPLAY-END", outcome)
 	return outcome
+}
+
+// SameFunc reports whether two func values are the same function.
+func SameFunc(a, b interface{}) bool {
+	return reflect.ValueOf(a).Pointer() == reflect.ValueOf(b).Pointer()
 }
